@@ -1,8 +1,8 @@
 import NeumannModel.RelTx.RaceModel
 import NeumannModel.RelTx.LockOwner
 /-
-  C09 — lemmas about the two halves of `tx_update` / `tx_delete` (`RaceModel.lean`): the repaired
-  second half is, for ANY list of scanned ids, a step that preserves the rollback invariant `Inv`
+  C09 — lemmas about the two halves of `tx_update` / `tx_delete` (`RaceModel.lean`): the
+  second half as the code is since fcb86137 (rows read again under the locks) is, for ANY list of scanned ids, a step that preserves the rollback invariant `Inv`
   and is the atomic statement when it runs right after its own scan.
 -/
 namespace Neumann.RelTx
@@ -47,29 +47,29 @@ theorem txScan_ids (T : Table) (cond : Cond) : (txScan T cond).map (·.1) = matc
   obtain ⟨r, hr, _⟩ := mem_matching.1 hi
   exact ⟨r, hr⟩
 
-/-- run right after its own scan, the repaired second half IS the atomic statement -/
-theorem txUpdateApplyFixed_after_own_scan {s : State} {A t : Nat} {cond : Cond} {upd : List (Nat × Val)} {T : Table}
+/-- run right after its own scan, the second half IS the atomic statement -/
+theorem txUpdateApply_after_own_scan {s : State} {A t : Nat} {cond : Cond} {upd : List (Nat × Val)} {T : Table}
     (hg : gate s A = none) (hT : s.tables t = some T) (hu : updBad T upd = false) :
-    txUpdateApplyFixed s A t cond (matching T cond) upd = txUpdate s A t cond upd := by
-  unfold txUpdateApplyFixed txUpdate
+    txUpdateApply s A t cond (matching T cond) upd = txUpdate s A t cond upd := by
+  unfold txUpdateApply txUpdate
   rw [hg]
   simp only [hT, hu, Bool.false_eq_true, ↓reduceIte, filter_stillMatches_matching]
 
-theorem txDeleteApplyFixed_after_own_scan {s : State} {A t : Nat} {cond : Cond} {T : Table}
+theorem txDeleteApply_after_own_scan {s : State} {A t : Nat} {cond : Cond} {T : Table}
     (hg : gate s A = none) (hT : s.tables t = some T) :
-    txDeleteApplyFixed s A t cond (matching T cond) = txDelete s A t cond := by
-  unfold txDeleteApplyFixed txDelete
+    txDeleteApply s A t cond (matching T cond) = txDelete s A t cond := by
+  unfold txDeleteApply txDelete
   rw [hg]
   simp only [hT, filter_stillMatches_matching]
 
-/-- the repaired second half of `tx_update`, for ANY id list of existing rows (a stale scan, a scan of
+/-- the second half of `tx_update`, for ANY id list of existing rows (a stale scan, a scan of
     another condition, anything): a step under which the rollback invariant is preserved, the acting
     transaction's rollback image is unchanged and every other transaction is a bystander -/
-theorem stepOK_txUpdateApplyFixed {s : State} (h : Inv s) {A t : Nat} {x : Tx} {T : Table} (hx : s.txs A = some x)
+theorem stepOK_txUpdateApply {s : State} (h : Inv s) {A t : Nat} {x : Tx} {T : Table} (hx : s.txs A = some x)
     (hT : s.tables t = some T) (cond : Cond) (ids : List Nat) (hex : ∀ i ∈ ids, i < T.rows.length)
     (upd : List (Nat × Val)) (hu : updBad T upd = false) :
-    StepOK s (txUpdateApplyFixed s A t cond ids upd).1 (some A) := by
-  unfold txUpdateApplyFixed
+    StepOK s (txUpdateApply s A t cond ids upd).1 (some A) := by
+  unfold txUpdateApply
   simp only [hT]
   by_cases hb : lockBlocked s A t ids = true
   · simp only [hb, ↓reduceIte]; exact StepOK.refl h _
@@ -95,10 +95,10 @@ theorem stepOK_txUpdateApplyFixed {s : State} (h : Inv s) {A t : Nat} {x : Tx} {
       exact gone_foldl (fun s i tx hg => gone_updateRow hg A t upd i) _ (gone_lockAll hB A t ids)
 
 /-- the same for `tx_delete` -/
-theorem stepOK_txDeleteApplyFixed {s : State} (h : Inv s) {A t : Nat} {x : Tx} {T : Table} (hx : s.txs A = some x)
+theorem stepOK_txDeleteApply {s : State} (h : Inv s) {A t : Nat} {x : Tx} {T : Table} (hx : s.txs A = some x)
     (hT : s.tables t = some T) (cond : Cond) (ids : List Nat) (hex : ∀ i ∈ ids, i < T.rows.length) (hnd : ids.Nodup) :
-    StepOK s (txDeleteApplyFixed s A t cond ids).1 (some A) := by
-  unfold txDeleteApplyFixed
+    StepOK s (txDeleteApply s A t cond ids).1 (some A) := by
+  unfold txDeleteApply
   simp only [hT]
   by_cases hb : lockBlocked s A t ids = true
   · simp only [hb, ↓reduceIte]; exact StepOK.refl h _
@@ -180,13 +180,13 @@ theorem deleteRow_txs (A t : Nat) (s : State) (i : Nat) :
       intro x hx
       exact ⟨[_], by simp only [setTable_txs]; exact recordUndo_txs_self s _ hx⟩
 
-/-- the repaired second halves never touch another transaction's record, and the actor's record keeps its
+/-- the second halves never touch another transaction's record, and the actor's record keeps its
     phase (so it stays usable) while its log grows -/
-theorem applyFixed_txs (s : State) (A t : Nat) (cond : Cond) (ids : List Nat) :
-    (∀ upd, (∀ B, B ≠ A → (txUpdateApplyFixed s A t cond ids upd).1.txs B = s.txs B) ∧
-      (∀ x, s.txs A = some x → ∃ more, (txUpdateApplyFixed s A t cond ids upd).1.txs A = some { x with undo := x.undo ++ more })) ∧
-    ((∀ B, B ≠ A → (txDeleteApplyFixed s A t cond ids).1.txs B = s.txs B) ∧
-      (∀ x, s.txs A = some x → ∃ more, (txDeleteApplyFixed s A t cond ids).1.txs A = some { x with undo := x.undo ++ more })) := by
+theorem apply_txs (s : State) (A t : Nat) (cond : Cond) (ids : List Nat) :
+    (∀ upd, (∀ B, B ≠ A → (txUpdateApply s A t cond ids upd).1.txs B = s.txs B) ∧
+      (∀ x, s.txs A = some x → ∃ more, (txUpdateApply s A t cond ids upd).1.txs A = some { x with undo := x.undo ++ more })) ∧
+    ((∀ B, B ≠ A → (txDeleteApply s A t cond ids).1.txs B = s.txs B) ∧
+      (∀ x, s.txs A = some x → ∃ more, (txDeleteApply s A t cond ids).1.txs A = some { x with undo := x.undo ++ more })) := by
   have base : ∀ (s1 : State), s1.txs = s.txs → ∀ (f : State → Nat → State),
       (∀ s i, (∀ B, B ≠ A → (f s i).txs B = s.txs B) ∧
         (∀ x, s.txs A = some x → ∃ more, (f s i).txs A = some { x with undo := x.undo ++ more })) →
@@ -201,13 +201,13 @@ theorem applyFixed_txs (s : State) (A t : Nat) (cond : Cond) (ids : List Nat) :
     ⟨fun _ _ => rfl, fun x hx => ⟨[], by simpa using hx⟩⟩
   refine ⟨?_, ?_⟩
   · intro upd
-    unfold txUpdateApplyFixed
+    unfold txUpdateApply
     split
     · exact same
     · split
       · exact same
       · exact base _ (by split <;> rfl) _ (updateRow_txs A t upd) _
-  · unfold txDeleteApplyFixed
+  · unfold txDeleteApply
     split
     · exact same
     · split
